@@ -18,6 +18,25 @@ def modelled : List String := [
   "poseidon.HashWithStateEx",
   "utils.CheckBigIntArrayInField",
   "utils.CheckBigIntInField",
+  "tree.<layout>@constants",
+  "tree.<layout>@ff",
+  "tree.<layout>@keccak256",
+  "tree.<layout>@mimc7",
+  "tree.<layout>@poseidon",
+  "tree.<layout>@root",
+  "tree.<layout>@utils",
+  "constants.<decls>@constants.go",
+  "ff.<asm>@element_mul_adx_amd64.s",
+  "ff.<asm>@element_mul_amd64.s",
+  "ff.<asm>@element_ops_amd64.s",
+  "ff.<decls>@arith.go",
+  "ff.<decls>@asm.go",
+  "ff.<decls>@asm_noadx.go",
+  "ff.<decls>@doc.go",
+  "ff.<decls>@element.go",
+  "ff.<decls>@element_ops_amd64.go",
+  "ff.<decls>@element_ops_noasm.go",
+  "keccak256.<decls>@keccac256.go",
   "mimc7.<decls>@mimc7.go",
   "poseidon.<decls>@constants.go",
   "poseidon.<decls>@poseidon.go",
@@ -26,9 +45,9 @@ def modelled : List String := [
 
 theorem source_pinned : modelled.all (same I3.Gen.fingerprints) = true := by decide +kernel
 
-theorem function_set_pinned : (["mimc7.", "poseidon.", "utils."] : List String).all (sameKeys I3.Gen.fingerprints) = true := by
+theorem function_set_pinned : (["constants.", "ff.", "keccak256.", "mimc7.", "poseidon.", "utils."] : List String).all (sameKeys I3.Gen.fingerprints) = true := by
   decide +kernel
 
-theorem modelled_nonempty : 13 = modelled.length := by decide
+theorem modelled_nonempty : 32 = modelled.length := by decide
 
 end I3.Props.C07
